@@ -214,10 +214,33 @@ def run(ctx):
                         diffs.append({"suite": "ser-custom", "definition": wire, "input_hex": t.hex(), "impl": want[:300], "model": m_ser[:300]})
             if len(samples) < 3 and cases:
                 samples.append({"definition": wire, "use": cases[0][0].decode("latin-1")})
-        # other unknown names stay unknown
+        # other unknown names stay unknown — in particular the near misses of the name just registered (and of built-in ones):
+        # an underscore at either end or inside, a missing or doubled letter, the class-name suffix
         p = Parser()
         if p.parse(b"zz" + name.encode() + b";") is not False or "unknown command" not in p.error:
             viol.append({"what": "unregistered name accepted after registration of %r" % name, "input": "zz" + name})
+        k = len(name) // 2
+        near = [name + "_", "_" + name, name + "__", "__" + name + "__", name[:k] + "_" + name[k:], name[:-1], name + name[-1], name + "command",
+                name.capitalize() + "Command", name + "_command"]
+        for spelling in near:
+            texts = [wrap(d, [spelling.encode(), b'"x"'], set())]
+            if cases:
+                import re as _re
+                sub = _re.sub(rb"(?i)(?<![\w:\"])" + _re.escape(name.encode()) + rb"(?![\w])", spelling.encode(), cases[0][0], count=1)
+                if sub != cases[0][0]:
+                    texts.append(sub)
+            for t in texts:
+                p = Parser()
+                evals += 1
+                if p.parse(t) is not False or "unknown command" not in (getattr(p, "error", None) or ""):
+                    viol.append({"what": "unregistered name %r accepted (or not reported as unknown) after registration of %r: %r" % (spelling, name, getattr(p, "error", None)),
+                                 "input_hex": t.hex(), "input": t.decode("latin-1")})
+    for t in (b"keep_;", b"_keep;", b"stop__;", b"if_ true { stop; }", b"if true_ { stop; }", b"if _true { stop; }", b"file_into \"a\";",
+              b'require "fileinto"; fileinto_ "a";', b"keepcommand;", b"KeepCommand;", b"action;", b"control;", b"test;", b"if test { stop; }", b"command;"):
+        p = Parser()
+        evals += 1
+        if p.parse(t) is not False or "unknown command" not in (getattr(p, "error", None) or ""):
+            viol.append({"what": "a near miss of a built-in name is accepted (or not reported as unknown): %r" % getattr(p, "error", None), "input_hex": t.hex(), "input": t.decode("latin-1")})
     ctx.notes.append("generated custom definitions meeting the theorem's hypothesis cmdSafe (table-safe on the extended table): %r" % safe_count)
     fresh, known = split_known("C20", viol, lambda f, v: False)
     return {"evaluations": evals, "distinct_nontrivial": nontriv, "rule": RULE, "samples": samples,
